@@ -93,20 +93,25 @@ func oracleC10(p *Plan, res *Result, exact bool) *common.Fail {
 	if sockUsable && nDisc != 1 {
 		return failTrace(evs, first.i1, "disconnect-missing", "the socket was usable when Close was called at %s but %d disconnect requests were sent", ms(first.t0), nDisc)
 	}
-	// after Close has returned
+	// whenever *any* Close call has returned to its caller, the tunnel is completely shut down for that caller
+	for i, e := range evs {
+		switch {
+		case e.K == "probe" && e.Note != "closed":
+			what := "is still open and empty"
+			if e.Note == "message" {
+				what = "still delivered a telegram"
+			}
+			return failTrace(evs, i, "inbound-open-after-close", "Close had returned (lane %d) but Inbound() %s: a non-blocking receive right after Close did not report the channel closed", e.Lane, what)
+		case e.K == "send<" && e.Lane >= 100 && e.Err == "":
+			return failTrace(evs, i, "send-after-close-ok", "a Send issued right after this goroutine's Close had returned (closer lane %d, telegram %d) reported success", e.Lane-100, e.Tag)
+		}
+	}
+	// after the first Close has returned
 	for i, e := range evs {
 		if i <= first.i1 {
 			continue
 		}
 		switch e.K {
-		case "probe":
-			if e.Note != "closed" {
-				what := "is still open and empty"
-				if e.Note == "message" {
-					what = "still delivered a telegram"
-				}
-				return failTrace(evs, i, "inbound-open-after-close", "Close had returned (lane %d) but Inbound() %s: a non-blocking receive right after Close did not report the channel closed", e.Lane, what)
-			}
 		case "read":
 			if exact && e.T > first.t1 {
 				return failTrace(evs, i, "read-after-close", "a telegram was read from Inbound at %s, after Close had returned at %s (Inbound must be closed by then)", ms(e.T), ms(first.t1))
@@ -291,6 +296,27 @@ func genPlanC10R(rt *rapid.T) *Plan {
 	}
 	if rapid.Bool().Draw(rt, "reader") {
 		p.Consumer = []ConStep{{AfterUs: 10, Kind: "drain"}}
+	}
+	if rapid.IntRange(0, 3).Draw(rt, "closers-during-dead-reconnect") == 0 {
+		// the gateway ends the connection and then stays silent: the reconnect attempt lasts the whole response
+		// timeout. Several closers arrive one after the other while the first is still waiting for it; every one of
+		// them must find the tunnel completely shut down when *its* Close returns.
+		p.Cfg.TimeoutUs = rapid.SampledFrom([]int{60000, 120000}).Draw(rt, "dead-timeout")
+		p.Conn = []Fate{okFate(300)}
+		p.DefConn = Fate{Act: "lose"}
+		at := rapid.IntRange(1000, 8000).Draw(rt, "dead-disc-at")
+		p.Gw = append([]GwStep{{AfterUs: at, Kind: "discreq", Chan: "cur"}}, p.Gw...)
+		p.Closers = nil
+		n := rapid.IntRange(2, 4).Draw(rt, "dead-closers")
+		for l := 0; l < n; l++ {
+			off := at + 2000 + l*rapid.IntRange(3000, 12000).Draw(rt, "dead-closer-gap")
+			steps := []CloseStep{{AfterUs: off, Kind: "close"}}
+			if rapid.Bool().Draw(rt, "dead-send-after") {
+				steps = append(steps, CloseStep{AfterUs: 1, Kind: "send", Tag: 910000 + l})
+			}
+			p.Closers = append(p.Closers, steps)
+		}
+		return p
 	}
 	addClosers(rt, p, rapid.IntRange(1, 4).Draw(rt, "closers"), horizon)
 	return p
